@@ -436,6 +436,44 @@ def gen_case(g, cid, hard, rich):
             c.pure = False
         if c.inc and r.random() < 0.4:
             c.cmds.append("FRAGATTR 1 %x %d %d -1" % (r.choice([0, 4, 8]), r.choice([-1, 0, 1, 2, 3]), r.choice([0, 0, 7, 2 ** 40])))
+    # second phase: write everything out, then rename / move / delete / alter on clean fragments;
+    # what is in memory afterwards must be what a reopen sees
+    if rich and r.random() < 0.5:
+        c.pure = False
+        c.phase2 = True
+        c.cmds.append("MFLUSH")
+        live = {}
+        for e in c.entries:
+            if e[2] is None:
+                live[unhx(e[0].split()[1])] = (e[1], e[0].split()[0])
+        for _ in range(r.randint(1, 4)):
+            if not live:
+                break
+            f = r.choice(sorted(live))
+            fr, kind = live[f]
+            k = r.random()
+            if k < 0.4:
+                nb = g.name(used)
+                nn = aff(nb) if (fr == 1 and c.inc) else nb
+                c.cmds.append("RENAME %s %s %x" % (hx(f), hx(nn), r.choice([2, 2, 2, 0, 6])))
+                live[nn] = live.pop(f)
+            elif k < 0.55 and c.inc:
+                c.cmds.append("MOVE %s %d %x" % (hx(f), 1 - fr, r.choice([2, 2, 0])))
+                # the library re-affixes the name; later commands may miss it, which is harmless
+                live.pop(f)
+            elif k < 0.65:
+                c.cmds.append("DELETE %s %x" % (hx(f), r.choice([0, 8, 9])))
+                live.pop(f)
+            elif k < 0.75:
+                c.cmds.append(("HIDE %s" if r.random() < 0.6 else "UNHIDE %s") % hx(f))
+            elif k < 0.85:
+                c.cmds.append("ALIAS %d - %s %s" % (0, hx(g.name(used)), hx(f)))
+            elif kind == "STRING":
+                c.cmds.append("PUTS %s %s" % (hx(f), hx(g.string())))
+            elif kind == "CONST":
+                c.cmds.append("PUTC %s U %x" % (hx(f), r.randint(0, 100)))
+            else:
+                c.cmds.append("HIDE %s" % hx(f))
     # standards version requested before the flush (ignored by the library if not available)
     if r.random() < 0.5:
         v = r.choice([6, 7, 8, 9, 10, 9, 8])
@@ -443,6 +481,162 @@ def gen_case(g, cid, hard, rich):
             v = 10
         c.cmds.append("STD %d" % v)
     return c
+
+
+def gen_xfrag_case(g, cid):
+    """two fragments with fields that refer to each other (input fields, scalar codes, aliases);
+    everything is written out, then fields are renamed / moved / deleted, then flushed again"""
+    r = g.r
+    c = Case(cid)
+    c.pretty = False
+    c.pure = False
+    c.phase2 = True
+    c.cmds.append("OPEN 0")
+    used = set()
+    k = r.random()
+    ns = px = sx = None
+    if k < 0.5:
+        pass
+    elif k < 0.7:
+        px = r.choice([b"p", b"P_", b"a b"])
+    elif k < 0.85:
+        sx = r.choice([b"s", b"_S", b"#"])
+    else:
+        ns = r.choice([b"ns", b"N1"])
+        if r.random() < 0.5 and not g.facts.get("INC_BLANK"):
+            px = b"q"
+    c.inc = (ns, px, sx)
+    c.cmds.append("INC 0 %s %s %s %s" % (hx(r.choice([b"sub", b"sub two"])), hx(ns), hx(px), hx(sx)))
+    plain_sub = not (ns or px or sx)
+
+    def aff(base):
+        return (ns + b"." if ns else b"") + (px or b"") + base + (sx or b"")
+
+    def nm():
+        for _ in range(50):
+            n = bytes(r.choice(b"abcdefghjklnopqstuvwxyzABCDEFGH0123456789_ #") for _ in range(r.randint(2, 7))).strip() or b"x"
+            if n not in used and aff(n) not in used and not n[:1].isdigit():
+                used.add(n); used.add(aff(n))
+                return n
+        return b"f%d" % len(used)
+    base = {0: [], 1: []}      # (name, kind)
+    for fr in (0, 1):
+        for _ in range(r.randint(1, 3)):
+            n = nm()
+            full = aff(n) if fr == 1 else n
+            if r.random() < 0.5:
+                c.cmds.append("ADD RAW %d - %s 088 %d" % (fr, hx(full), r.randint(1, 9)))
+                base[fr].append((full, "RAW"))
+            else:
+                c.cmds.append("ADD CONST %d - %s 001 %x 0" % (fr, hx(full), r.randint(1, 9)))
+                base[fr].append((full, "CONST"))
+    derived = []
+    for fr in (0, 1):
+        other = 1 - fr
+        if fr == 1 and not plain_sub:
+            targets = base[1]          # codes in an affixed fragment must carry its affixes
+        else:
+            targets = base[other] + (base[fr] if r.random() < 0.3 else [])
+        if not targets:
+            continue
+        for _ in range(r.randint(1, 3)):
+            n = nm()
+            full = aff(n) if fr == 1 else n
+            t = r.choice(targets)
+            kk = r.random()
+            consts = [x for x in targets if x[1] == "CONST"]
+            if kk < 0.3:
+                c.cmds.append("ADD PHASE %d - %s %s %d" % (fr, hx(full), hx(t[0]), r.randint(-5, 5)))
+            elif kk < 0.5:
+                t2 = r.choice(targets)
+                c.cmds.append("ADD MULTIPLY %d - %s %s %s" % (fr, hx(full), hx(t[0]), hx(t2[0])))
+            elif kk < 0.7 and consts:
+                cc = r.choice(consts)
+                c.cmds.append("ADD PHASE %d - %s %s 0 S 0 %s -1" % (fr, hx(full), hx(t[0]), hx(cc[0])))
+            elif kk < 0.85 and consts:
+                cc = r.choice(consts)
+                c.cmds.append("ADD LINCOM %d - %s 1 0 %s 0 0 %016x 0 S 0 %s -1" % (fr, hx(full), hx(t[0]), dbits(2.0), hx(cc[0])))
+            else:
+                c.cmds.append("ALIAS %d - %s %s" % (fr, hx(full), hx(t[0])))
+            derived.append((full, fr))
+    c.cmds.append("MFLUSH")
+    allb = [(n, fr) for fr in (0, 1) for n, _ in base[fr]]
+    for _ in range(r.randint(1, 3)):
+        kk = r.random()
+        pool = allb if r.random() < 0.75 or not derived else derived
+        if not pool:
+            break
+        f, fr = r.choice(pool)
+        if kk < 0.55:
+            nn = nm()
+            c.cmds.append("RENAME %s %s %x" % (hx(f), hx(aff(nn) if fr == 1 else nn), r.choice([2, 2, 2, 0, 6])))
+        elif kk < 0.8:
+            c.cmds.append("MOVE %s %d %x" % (hx(f), 1 - fr, r.choice([2, 2, 0])))
+        elif kk < 0.9:
+            c.cmds.append("DELETE %s %x" % (hx(f), r.choice([8, 0, 12])))
+        else:
+            c.cmds.append("HIDE %s" % hx(f))
+        if (f, fr) in allb:
+            allb.remove((f, fr))
+        if (f, fr) in derived:
+            derived.remove((f, fr))
+    if r.random() < 0.3:
+        c.cmds.append("STD %d" % r.choice([9, 10]))
+    return c
+
+
+def gen_version_cases():
+    """every kind of entry (and data type where _GD_FindVersion looks at it) alone in a database,
+    hidden or not, with every Standards Version 5..10 requested before the flush; plus fragment
+    attributes and special names against every version"""
+    D1 = "%016x" % dbits(1.5)
+    IN, IN2 = hx(b"in"), hx(b"in2")
+    kinds = []
+    for t in ("UINT8", "INT8", "UINT16", "INT64", "UINT64", "FLOAT32", "FLOAT64", "COMPLEX64", "COMPLEX128"):
+        kinds.append("ADD RAW 0 - %%s %03x 2" % TYPES[t])
+        kinds.append("ADD CONST 0 - %%s %03x 1 0" % TYPES[t])
+    for t in ("UINT8", "FLOAT64", "COMPLEX64"):
+        kinds.append("ADD CARRAY 0 - %%s %03x 2 1 0 1 0" % TYPES[t])
+    kinds += ["ADD LINCOM 0 - %%s 1 0 %s %s 0 %s 0" % (IN, D1, D1),
+              "ADD LINCOM 0 - %%s 1 1 %s %s %s %s 0" % (IN, D1, D1, D1),
+              "ADD LINTERP 0 - %%s %s %s" % (IN, hx(b"table")),
+              "ADD BIT 0 - %%s %s 3 1" % IN, "ADD BIT 0 - %%s %s 3 4" % IN, "ADD BIT 0 - %%s %s 40 1" % IN,
+              "ADD SBIT 0 - %%s %s 3 4" % IN,
+              "ADD MULTIPLY 0 - %%s %s %s" % (IN, IN2), "ADD DIVIDE 0 - %%s %s %s" % (IN, IN2),
+              "ADD INDIR 0 - %%s %s %s" % (IN, IN2), "ADD SINDIR 0 - %%s %s %s" % (IN, IN2),
+              "ADD RECIP 0 - %%s %s 0 %s 0" % (IN, D1), "ADD RECIP 0 - %%s %s 1 %s %s" % (IN, D1, D1),
+              "ADD PHASE 0 - %%s %s 5" % IN,
+              "ADD POLYNOM 0 - %%s %s 2 0 %s 0 %s 0 %s 0" % (IN, D1, D1, D1),
+              "ADD WINDOW 0 - %%s %s %s 1 5" % (IN, IN2), "ADD WINDOW 0 - %%s %s %s 3 %s" % (IN, IN2, D1),
+              "ADD MPLEX 0 - %%s %s %s 1 10" % (IN, IN2),
+              "ADD STRING 0 - %%s %s" % hx(b"value"), "ADD SARRAY 0 - %%s 2 %s %s" % (hx(b"a"), hx(b"b"))]
+    out = []
+    n = 0
+    for kd in kinds:
+        for hidden in (False, True):
+            for v in (5, 6, 7, 8, 9, 10):
+                c = Case("v%d" % n)
+                n += 1
+                c.pretty = False
+                c.pure = False
+                c.cmds += ["OPEN 0", kd % hx(b"f")]
+                if hidden:
+                    c.cmds.append("HIDE %s" % hx(b"f"))
+                c.cmds.append("STD %d" % v)
+                out.append(c)
+    for extra in (["FRAGATTR 0 4 -1 0 -1"], ["FRAGATTR 0 0 2 0 -1"], ["FRAGATTR 0 0 -1 7 -1"], ["FRAGATTR 0 0 -1 0 3000000"],
+                  ["ADD CONST 0 - %s 001 1 0" % hx(b"a b")], ["ADD CONST 0 - %s 001 1 0" % hx(b"a#b")], ["ADD CONST 0 - %s 001 1 0" % hx(b"ENCODING")],
+                  ["ADD CONST 0 - %s 001 1 0" % hx(b"p"), "ADD CONST 0 p %s 001 1 0" % hx(b"m")],
+                  ["ADD CONST 0 - %s 001 1 0" % hx(b"t"), "ALIAS 0 - %s %s" % (hx(b"al"), hx(b"t"))],
+                  ["INC 0 %s - %s -" % (hx(b"sub"), hx(b"px"))], ["INC 0 %s - - %s" % (hx(b"sub"), hx(b"sx"))]):
+        for v in (5, 6, 7, 8, 9, 10):
+            c = Case("v%d" % n)
+            n += 1
+            c.pretty = False
+            c.pure = False
+            c.cmds += ["OPEN 0"] + extra + ["STD %d" % v]
+            out.append(c)
+    return out
 
 
 def h16x(v, k):
@@ -692,6 +886,7 @@ def main():
         "entry model covers one fragment without affixes/namespaces, Standards Versions >= 5, field codes without '.'; includes, affixes, aliases, hidden flags, metafields and fragment attributes are checked on the implementation only (snapshot before == after)",
     ]
     chk.assumptions += ["NaN payloads are not compared (NaNs are one class)",
+                        "a fragment written for Standards Version <= 5 cannot record its encoding (no /ENCODING directive); the encoding is not compared there",
                         "a scalar index -1 and the index 0 forced by the '<0>' disambiguation of number-like CONST names are the same index",
                         "a trailing '.z' (explicit no-representation suffix) added to the ambiguous one-character codes r,i,a,m is the same field code"]
     try:
@@ -713,6 +908,10 @@ def main():
         hard = (i % 4 == 3)
         rich = (i % 3 == 1)
         cases.append(gen_case(g, "g%d" % i, hard, rich))
+    vcases = gen_version_cases()
+    cases += vcases
+    for i in range(120 if not chk.thorough else 1500):
+        cases.append(gen_xfrag_case(g, "x%d" % i))
     # known-finding witnesses (replayed on every run)
     wit = []
     for key, bits in ((K15, dbits(0.1 + 0.2)), (KSUB, dbits(1e-310)), (KNZ, 0x8000000000000000)):
@@ -891,6 +1090,8 @@ def main():
                 n_snap += 1
                 if x == y:
                     continue
+                if x.startswith("G ") and c.std < 6 and re.sub(r" enc=\w+", "", x) == re.sub(r" enc=\w+", "", y):
+                    continue        # Standards Versions <= 5 have no /ENCODING directive
                 cx, cy = canon_from_snap(x) if x.startswith("F ") else None, canon_from_snap(y) if y.startswith("F ") else None
                 if cx and cy and x.split()[2:6] == y.split()[2:6]:
                     if normalise(cx, idx=True) == normalise(cy, idx=True):
@@ -915,7 +1116,7 @@ def main():
         bodyset = set(body)
         for ce, frag, parent in c.entries:
             nm = ce.split()[1]
-            if nm in c.A and normalise(c.A[nm], idx=True) != normalise(ce, idx=True) and parent is None:
+            if nm in c.A and normalise(c.A[nm], idx=True) != normalise(ce, idx=True) and parent is None and not getattr(c, "phase2", False):
                 viol("harness/api-store", "gd_entry right after gd_add differs from what was added: %s vs %s" % (ce[:300], c.A[nm][:300]),
                               dict(replay, added=ce, got=c.A[nm]), found=False)
         for nm, ce in c.M.items():
